@@ -56,7 +56,24 @@ var keyWords = map[string]bool{"Key": true, "Keys": true, "Start": true, "End": 
 // Secondar(y|ies) or Split. Values, data, plans, tags, ids, hashes are not.
 // Region boundaries (fields of metapb.Region, KeyNotInRegion.start/end, bucket
 // keys of BucketVersionNotMatch) are additionally memcomparable-encoded.
+type classKey struct {
+	t reflect.Type
+	f string
+}
+
+var classCache sync.Map // classKey -> int (pure function of its arguments)
+
 func classify(parent reflect.Type, field string) int {
+	k := classKey{parent, field}
+	if c, ok := classCache.Load(k); ok {
+		return c.(int)
+	}
+	c := classifyUncached(parent, field)
+	classCache.Store(k, c)
+	return c
+}
+
+func classifyUncached(parent reflect.Type, field string) int {
 	isKey := false
 	for _, w := range splitCamel(field) {
 		if keyWords[w] {
@@ -88,6 +105,7 @@ type fieldMeta struct {
 var (
 	fmMu    sync.Mutex
 	fmCache = map[reflect.Type]map[string]fieldMeta{}
+	fmDone  sync.Map // completed entries of fmCache, read without the lock
 )
 
 type descMsg interface {
@@ -111,11 +129,15 @@ func protoName(tag string) (name string, num int) {
 
 // fieldInfo returns the proto metadata of the Go fields of struct type t.
 func fieldInfo(t reflect.Type) map[string]fieldMeta {
+	if m, ok := fmDone.Load(t); ok {
+		return m.(map[string]fieldMeta)
+	}
 	fmMu.Lock()
 	defer fmMu.Unlock()
 	if m, ok := fmCache[t]; ok {
 		return m
 	}
+	defer func() { fmDone.Store(t, fmCache[t]) }()
 	m := map[string]fieldMeta{}
 	fmCache[t] = m
 	depr := map[string]bool{}
